@@ -12,7 +12,7 @@
    reader model to reader.c/block.c is engine rd (step by step, all four kinds, several
    iterators of one reader interleaved, buffers checked after the following call). *)
 From Coq Require Import NArith List Lia.
-From Mtbl Require Import model.Bytes model.Order spec.Parse model.Reader proofs.BlockProofs proofs.ReaderProofs.
+From Mtbl Require Import model.Bytes model.Order spec.Parse model.Reader proofs.BlockProofs proofs.ReaderProofs proofs.LookupRel.
 (* source ties: the statements of the C functions the model follows (gen/Ties.v is regenerated from /repo on every run) *)
 From Mtbl Require props.Ties_C03.
 Local Open Scope N_scope.
@@ -95,6 +95,35 @@ Theorem T03c_reader_history_lookup : forall decompress r ib iridx nb B Rr,
   end.
 Proof. exact table_history_lookup. Qed.
 Print Assumptions T03c_reader_history_lookup.
+
+(* T03e: a seek forgets the history ("from any state").  Take the iterator of
+   mtbl_source_iter or of a lookup and ANY two histories pre, pre' of next / seek calls;
+   after seek(key) the answers to every continuation post are the same list - the one a
+   fresh cursor placed on the first entry >= key gives.  (The pinned tree broke exactly
+   this: F1, a seek answered from the block a previous next had left behind.) *)
+Theorem T03e_seek_forgets_history : forall decompress r ib iridx nb B Rr,
+  table_ok decompress r ib iridx nb B Rr ->
+  forall kind key0 bound,
+  match reader_iter_init decompress r kind key0 bound with
+  | Ok (Some it) => forall pre pre' key post, exists out out',
+      length out = length pre /\ length out' = length pre' /\
+      run_model decompress r it (pre ++ RSeek key :: post) =
+        Ok (out ++ None :: run_spec nb B kind bound (Some (gfirst nb B key)) post) /\
+      run_model decompress r it (pre' ++ RSeek key :: post) =
+        Ok (out' ++ None :: run_spec nb B kind bound (Some (gfirst nb B key)) post)
+  | Ok None => True
+  | _ => False
+  end.
+Proof.
+  intros decompress r ib iridx nb B Rr T kind key0 bound.
+  pose proof (T03c_reader_history_lookup decompress r ib iridx nb B Rr T kind key0 bound) as H.
+  destruct (reader_iter_init decompress r kind key0 bound) as [[it|]| | |]; try exact H; [|exact I].
+  intros pre pre' key post.
+  destruct (run_spec_seek_forgets nb B kind bound key post pre (Some (gfirst nb B key0))) as (out & Hl & Hr).
+  destruct (run_spec_seek_forgets nb B kind bound key post pre' (Some (gfirst nb B key0))) as (out' & Hl' & Hr').
+  exists out, out'. rewrite !H, Hr, Hr'. repeat split; assumption.
+Qed.
+Print Assumptions T03e_seek_forgets_history.
 
 (* T03d: the cursor positions used above mean what the statement says: gfirst k is the
    unique position p with every entry before p < k and the entry at p (if any) >= k,
